@@ -28,16 +28,47 @@ func init() {
 		base := labWorkDir("c07veneers")
 		defer os.RemoveAll(base)
 		defer func() { c07VeneersDir = "" }()
-		for i := 0; i < n; i++ {
-			r := caseRng(seed, i)
-			k := 1 + r.intn(2)
+		byPkg := map[string]c07Input{}
+		for _, in := range all {
+			byPkg[in.pkg] = in
+		}
+		// pinned: the two cases on which the rule-data sharing showed (fixed in /repo: "options and assignments
+		// added by veneers shared their arguments with the rule itself"); a relapse is a violation
+		pinned := []struct {
+			pkgs []string
+			docs []string
+		}{
+			{[]string{"op_nested_structs", "op_split_schema"}, []string{
+				`{"language":"all","options":[{"add_assignment":{"assignment":{"method":"direct","path":"id","value":{"argument":{"name":"id","type":{"kind":"scalar","nullable":true,"scalar":{"scalar_kind":"string"}}}}},"by_name":"Partial.id"}},{"duplicate":{"as":"dup","by_builder":"Partial.ID"}}],"package":"op_split_schema"}`,
+				`{"language":"go","options":[{"rename_arguments":{"as":["y"],"by_name":"Partial.id"}}],"package":"op_split_schema"}`}},
+			{[]string{"js_influxdbquery"}, []string{
+				`{"language":"all","options":[{"add_assignment":{"assignment":{"method":"direct","path":"value","value":{"argument":{"name":"key","type":{"kind":"scalar","nullable":true,"scalar":{"scalar_kind":"string"}}}}},"by_name":"AdHocVariableFilter.key"}}],"package":"js_influxdbquery"}`,
+				`{"language":"go","options":[{"rename_arguments":{"as":["y"],"by_name":"AdHocVariableFilter.key"}}],"package":"js_influxdbquery"}`}},
+		}
+		for i := -len(pinned); i < n; i++ {
+			r := caseRng(seed, i+len(pinned))
 			var ins []c07Input
-			used := map[string]bool{}
-			for len(ins) < k {
-				c := pick(r, all)
-				if !used[c.pkg] {
-					used[c.pkg] = true
-					ins = append(ins, c)
+			var pinnedDocs []string
+			if i < 0 {
+				pc := pinned[i+len(pinned)]
+				for _, pk := range pc.pkgs {
+					if in, ok := byPkg[pk]; ok {
+						ins = append(ins, in)
+					}
+				}
+				if len(ins) != len(pc.pkgs) {
+					continue
+				}
+				pinnedDocs = pc.docs
+			} else {
+				k := 1 + r.intn(2)
+				used := map[string]bool{}
+				for len(ins) < k {
+					c := pick(r, all)
+					if !used[c.pkg] {
+						used[c.pkg] = true
+						ins = append(ins, c)
+					}
 				}
 			}
 			var names []string
@@ -73,13 +104,20 @@ func init() {
 				fmt.Fprintf(out, "-\tveneers-skip %s no-builders\tok\n", d)
 				continue
 			}
-			_, files := genVeneerFiles(r, schemas, bs, tier)
-			dir := filepath.Join(base, fmt.Sprintf("v%d", i))
+			dir := filepath.Join(base, fmt.Sprintf("v%d", i+len(pinned)))
 			_ = os.MkdirAll(dir, 0o755)
 			var docs []string
-			for fi, f := range files {
-				_ = os.WriteFile(filepath.Join(dir, fmt.Sprintf("veneers_%d.yaml", fi)), f.doc(), 0o644)
-				docs = append(docs, string(f.doc()))
+			if pinnedDocs != nil {
+				docs = pinnedDocs
+				d = "pinned " + d
+			} else {
+				_, files := genVeneerFiles(r, schemas, bs, tier)
+				for _, f := range files {
+					docs = append(docs, string(f.doc()))
+				}
+			}
+			for fi, doc := range docs {
+				_ = os.WriteFile(filepath.Join(dir, fmt.Sprintf("veneers_%d.yaml", fi)), []byte(doc), 0o644)
 			}
 			desc := clean.Replace(d + " veneers=" + strings.Join(docs, " ;; "))
 			c07VeneersDir = dir
